@@ -231,6 +231,62 @@ def counting(I, nb=2, scheduler=True):
     return True, ""
 
 
+def two_runs(B, G, kind, n, h, a, data, bases):
+    """history: the same model is trained twice with different (symbolic) learning rates, the caller passing the SAME
+    optimizer_args dict both times; every step of each run uses that run's learning rate; the caller's dict is not written to"""
+    from qucumber.callbacks import LambdaCallback
+
+    O = B.O
+    st, P = C.make_state(B, kind, n, h, a)
+    with_bases = kind != "positive"
+    barr = np.array([list(x) for x in bases]) if with_bases else None
+    B.stub_randperm(lambda m: list(range(m)))
+    B.stub_randint(lambda high, size: [0] * size[0])
+    B.stub_bernoulli(lambda p: np.ones(np.shape(p)))
+    nets = list(st.networks)
+    names = {net: [nm for nm, _ in getattr(st, net).named_parameters()] for net in nets}
+    snaps = []
+
+    def cur(net):
+        return {nm: B.scalars(getattr(getattr(st, net), nm)).copy() for nm in names[net]}
+
+    def on_batch_start(s, ep, b):
+        snaps.append(dict(before={net: cur(net) for net in nets}))
+
+    def on_batch_end(s, ep, b):
+        sn = snaps[-1]
+        sn["after"] = {net: cur(net) for net in nets}
+        sn["grads"] = {net: {nm: (None if getattr(getattr(st, net), nm).grad is None else B.scalars(getattr(getattr(st, net), nm).grad).copy()) for nm in names[net]} for net in nets}
+
+    cb = LambdaCallback(on_batch_start=on_batch_start, on_batch_end=on_batch_end)
+    shared = {"momentum": 0}
+    lrs = [B.var("lr"), B.var("lr_second")]
+    marks = []
+    for run, lr in enumerate(lrs):
+        kw = dict(epochs=1, pos_batch_size=2, k=1, lr=lr, callbacks=[cb], optimizer_args=shared)
+        if with_bases:
+            kw["input_bases"] = barr
+        st.fit(C.rows_tensor(B, data), **kw)
+        marks.append(len(snaps))
+        G.fact("run%d.optimizer_args_unchanged" % run, shared == {"momentum": 0}, "caller's dict is now %r" % (sorted(shared),))
+    start = 0
+    for run, (lr, end) in enumerate(zip(lrs, marks)):
+        for t in range(start, end):
+            sn = snaps[t]
+            for net in nets:
+                for nm in names[net]:
+                    gr = sn["grads"][net][nm]
+                    bf, af = sn["before"][net][nm].reshape(-1), sn["after"][net][nm].reshape(-1)
+                    for i in range(len(bf)):
+                        gi = O.frac(0) if gr is None else gr.reshape(-1)[i]
+                        G.eq("run%d.batch%d.%s.%s[%d]==before-lr*grad" % (run, t - start, net, nm, i), af[i], bf[i] - lr * gi)
+        start = end
+    G.fact("both_runs_stepped", marks[0] > 0 and marks[1] > marks[0], marks)
+    sn = snaps[marks[0]]
+    g0 = sn["grads"][nets[0]][names[nets[0]][0]].reshape(-1)[0]
+    G.twin("twin_first_rate_reused", sn["after"][nets[0]][names[nets[0]][0]].reshape(-1)[0], sn["before"][nets[0]][names[nets[0]][0]].reshape(-1)[0] - lrs[0] * g0)
+
+
 def jobs(tier):
     J = []
 
@@ -245,7 +301,11 @@ def jobs(tier):
     for (bs, nbs, k) in [(2, None, 1), (2, 1, 1), (3, 2, 0)]:
         add("complex-2x1-N3-bs%d-neg%s-k%d" % (bs, nbs, k), kind="complex", n=2, h=1, a=None, data=d3, bases=b3, bs=bs, nbs=nbs, k=k)
     add("mixed-111-N3-bs2-neg1-k1", kind="mixed", n=1, h=1, a=1, data=[[0], [1], [1]], bases=["Z", "Y", "Z"], bs=2, nbs=1, k=1)
+    ropts = dict(env_range=0.75, var_ranges=[["lr", 0.05, 0.5]], timeout_ms=120000)
+    J.append(dict(name="two-runs-positive-2x2", module="checks.c06", scenario="two_runs", kwargs=dict(kind="positive", n=2, h=2, a=None, data=d3, bases=None), opts=dict(ropts)))
+    J.append(dict(name="two-runs-complex-2x1", module="checks.c06", scenario="two_runs", kwargs=dict(kind="complex", n=2, h=1, a=None, data=d3, bases=b3), opts=dict(ropts)))
     if tier != "quick":
+        J.append(dict(name="two-runs-mixed-111", module="checks.c06", scenario="two_runs", kwargs=dict(kind="mixed", n=1, h=1, a=1, data=[[0], [1], [1]], bases=["Z", "Y", "Z"]), opts=dict(ropts)))
         add("positive-2x2-N4-bs3-neg2-k3", kind="positive", n=2, h=2, a=None, data=d4, bases=None, bs=3, nbs=2, k=3)
         add("positive-3x2-N4-bs2-k2", kind="positive", n=3, h=2, a=None, data=[[0, 1, 1], [1, 1, 0], [1, 0, 0], [0, 0, 1]], bases=None, bs=2, nbs=None, k=2)
         add("complex-2x2-N4-bs3-neg2-k1", kind="complex", n=2, h=2, a=None, data=d4, bases=["ZZ", "YX", "ZZ", "XY"], bs=3, nbs=2, k=1)
